@@ -1509,7 +1509,7 @@ class MiniVM:
         self._tick()
         try:
             return self._eval(e, env, mod, owner)
-        except (VMError, VMRaise, _NativeRaise, _Ret, _Brk, _Cont):
+        except (VMError, VMRaise, _NativeRaise, _Ret, _Brk, _Cont, _Escape):
             raise
         except RecursionError:
             raise VMError("recursion limit")
